@@ -118,7 +118,7 @@ def swint_cfg(stem, out_stride, upi, model_type, arch, cpb=2, ms=None):
     }
 
 
-def head_cfg(model_type, s1, s2=None):
+def head_cfg(model_type, s1, s2=None, pafs_first=False):
     if model_type == "single_instance":
         return {"confmaps": {"part_names": PARTS, "sigma": 1.5, "output_stride": s1, "loss_weight": 1.0}}
     if model_type == "centered_instance":
@@ -126,10 +126,10 @@ def head_cfg(model_type, s1, s2=None):
     if model_type == "centroid":
         return {"confmaps": {"anchor_part": None, "sigma": 1.5, "output_stride": s1, "loss_weight": 1.0}}
     if model_type == "bottomup":
-        return {
-            "confmaps": {"part_names": PARTS, "sigma": 1.5, "output_stride": s1, "loss_weight": 1.0},
-            "pafs": {"edges": EDGES, "sigma": 4.0, "output_stride": s2, "loss_weight": 1.0},
-        }
+        cms = {"part_names": PARTS, "sigma": 1.5, "output_stride": s1, "loss_weight": 1.0}
+        pafs = {"edges": EDGES, "sigma": 4.0, "output_stride": s2, "loss_weight": 1.0}
+        # a config file may list the two heads in either order; the heads are identified by key, not by position
+        return {"pafs": pafs, "confmaps": cms} if pafs_first else {"confmaps": cms, "pafs": pafs}
     raise ValueError(model_type)
 
 
@@ -405,6 +405,11 @@ def enum_models(tier, wseed, counters):
         ms = bb["max_stride"]
         mc = {"family": family, "backbone": bb, "model_type": model_type, "heads": heads, "wseed": wseed}
         items.append((mc, [((k1 * ms, k2 * ms), b) for (k1, k2), b in inputs]))
+        if model_type == "bottomup" and len(set(head_strides(heads))) == 2:
+            # the same model with the heads listed pafs-first (key order of the config mapping)
+            counters["valid"] += 1
+            mc2 = dict(mc, heads={k: heads[k] for k in reversed(list(heads))})
+            items.append((mc2, [((k1 * ms, k2 * ms), b) for (k1, k2), b in inputs[:1]]))
 
     # ---- UNet
     filt_full = (4,)
